@@ -205,13 +205,13 @@ def step' (d : DSt) (ts : List String) : DSt × List String :=
     let fails := if okOp then lockstepAll d.s d'.s ts (denoms d') else []
     -- custody abstraction: per pool, the abstract operations with the actual amounts must be admissible and commute
     let cres := if okOp then d'.s.pools.map (fun p => (p.id, CLCustody.lockstepC d.s d'.s p.id (custodyEvs d.s d'.s ts p.id))) else []
-    let cfails := cres.filterMap fun (id, ok, m, _) =>
+    let cfails := cres.filterMap fun (id, ok, within, _) =>
       if !ok then some s!"custody {ts.head?.getD ""} pool={id}"
-      else if decide (m > CLCustody.errTol) then some s!"custody-rounding {ts.head?.getD ""} pool={id} e~{(m * 1000000000).floor}e-9 op={" ".intercalate ts} pool0={match getPool d.s id with | some p => s!"tick={p.tick} sqrtP={p.sqrtP} liq={p.liq}" | none => ""} pos={(d.s.positions.filter (·.pool == id)).map fun q => (q.id, q.lower, q.upper, q.liq.raw)} sp={(CLCustody.ticksOfPool d.s id).eraseDups.map fun t => (t, match TickMath.tickToSqrtPrice t (match getPool d.s id with | some p => p.tp | none => default) with | .ok v => v.raw | _ => 0)}" else none
+      else if !within then some s!"custody-rounding {ts.head?.getD ""} pool={id}" else none
     let slack' := cres.foldl (fun acc (id, _, _, sm) =>
       if acc.any (·.1 == id) then acc.map (fun x => if x.1 == id then (id, x.2 + sm) else x) else acc ++ [(id, sm)])
       (if ts.head? == some "reset" then [] else d.slackC)
-    let maxErr' := cres.foldl (fun m (_, _, e, _) => CLCustody.rmax m e) (if ts.head? == some "reset" then 0 else d.maxErr)
+    let maxErr' := d.maxErr
     let fails := fails ++ cfails
     ({ d' with prev := d.s, slackC := slack', maxErr := maxErr', absFail := (if ts.head? == some "reset" then [] else d.absFail) ++ fails, k := if ts.head? == some "reset" then 0 else d.k + 2 * ts.foldl (fun n t => n + (t.splitOn ",").length) 1 }, out)
 
